@@ -127,7 +127,29 @@ extern "C" void gpusim_dispatch(int kernel, const unsigned *outer, const unsigne
 '''
 
 
+def bounds_checks(mode, device_text):
+    """C++ statements that compare the launched block with what the translation declares for each device kernel."""
+    out = ""
+    if mode in ("cuda", "hip"):
+        for (n, k) in re.findall(r"__launch_bounds__\((\d+)\)\s*void\s+_occa_k_(\d+)", device_text):
+            out += ('  if (kernel == %s && (unsigned long) inner[0] * inner[1] * inner[2] > %sul) '
+                    'gpusim_launch_bounds_violation(kernel, inner[0], inner[1], inner[2], "__launch_bounds__(%s)");\n' % (k, n, n))
+    elif mode == "opencl":
+        for (x, y, z, k) in set(re.findall(r"reqd_work_group_size\((\d+),\s*(\d+),\s*(\d+)\)\)\)\s*void\s+_occa_k_(\d+)", device_text)):
+            out += ('  if (kernel == %s && (inner[0] != %su || inner[1] != %su || inner[2] != %su)) '
+                    'gpusim_launch_bounds_violation(kernel, inner[0], inner[1], inner[2], "reqd_work_group_size(%s,%s,%s)");\n' % (k, x, y, z, x, y, z))
+    return out
+
+
 def adapter(mode, device_text):
+    text, nk = _adapter(mode, device_text)
+    chk = bounds_checks(mode, device_text)
+    if chk:
+        text = text.replace("  gpusim_args a = {", chk + "  gpusim_args a = {", 1)
+    return text, nk
+
+
+def _adapter(mode, device_text):
     ks = sorted(set(int(x) for x in re.findall(r"_occa_k_(\d+)\s*\(", device_text)))
     if mode in ("cuda", "hip", "opencl"):
         calls = "".join("    case %d: _occa_k_%d(a.n, a.in0, a.in1, a.out0, a.out1, a.fout); break;\n" % (k, k) for k in ks)
